@@ -502,7 +502,6 @@ Lemma combine_fold_get : forall items acc k,
   uget (fold_left (fun acc it =>
                      match it with
                      | EnvSet k v => Some (info_set k v (match acc with Some i => i | None => [] end))
-                     | EnvSetNull k => Some (match acc with Some i => i | None => [] end)
                      | EnvSkip => acc
                      end) items acc) k =
   match fold_left (fun a it => match it with
@@ -516,11 +515,10 @@ Proof.
   induction items as [|it items IH] using rev_ind; intros acc k.
   - reflexivity.
   - rewrite !fold_left_app. cbn [fold_left].
-    destruct it as [k' v| k' |].
+    destruct it as [k' v|].
     + cbn [uget]. rewrite info_get_set. destruct (bytes_eqb k k') eqn:E; [reflexivity|].
       specialize (IH acc k). destruct (fold_left _ items acc) as [i|]; cbn [uget] in *; [exact IH|].
       cbn [info_get]. exact IH.
-    + specialize (IH acc k). destruct (fold_left _ items acc) as [i|]; cbn [uget] in *; exact IH.
     + apply IH.
 Qed.
 
@@ -543,6 +541,13 @@ Proof. intros user s k v H user'. unfold align_hint. now rewrite !env_over_info,
 
 Corollary env_absent_keeps_info : forall user k,
   uget (combine_env_hints user None) k = uget user k.
+Proof. reflexivity. Qed.
+
+(* ill-formed pieces are skipped, among them "key=" and "key= value" (whose value the first
+   strtok cuts off): no MPI_Info_set with a NULL value any more *)
+Example env_items_example :
+  env_items (B "a=1; b = 2;c=;;nc_x=3=4; d=5 ;e= 6") =
+  [EnvSet (B "a") (B "1"); EnvSkip; EnvSkip; EnvSkip; EnvSkip; EnvSet (B "d") (B "5"); EnvSkip].
 Proof. reflexivity. Qed.
 
 Example env_over_info_example :
